@@ -261,6 +261,9 @@ func asmSel(r *vk.RNG) string {
 }
 
 func randInt(r *vk.RNG) uint32 {
+	if r.Chance(1, 12) {
+		return vk.Pick(r, []uint32{0xffffffff, 0xfffffffe, 0x80000000, 0x7fffffff, 0x00ffffff, 0x01000000, 0xffff, 0x10000, 0xff, 0x100})
+	}
 	switch r.Intn(6) {
 	case 0:
 		return uint32(r.Intn(256))
